@@ -7,6 +7,7 @@
 (*   undo / redo {r, ul, cr, doc, x[, site]}                                *)
 (*   begin {ul, cr, doc, x}                begin_atomic_undo                *)
 (*   end   {kind: "drop"|"end", ul, cr, doc, x}   guard dropped / guard.end()*)
+(*         (r = "panic" + site when closing the guard panicked)             *)
 (* r = "ok" | "err" | "panic" | "skip" (operation not applicable, not called)*)
 (* ul = undo_stack_len(), cr = can_redo() (0/1) AFTER the call              *)
 (* doc = digest of the observational snapshot of the document (what the     *)
@@ -110,7 +111,9 @@ UndoRedo(e, isUndo) ==
     /\ Check(ok, "C08", name \o "Restores", l, [op |-> tag, taint |-> taint, want |-> W(want), got |-> e.doc])
     /\ Expect(strict, e.ev \o "-strict-digest", l, [op |-> tag])
     /\ Expect(StacksAs(nxt, e), e.ev \o "-stacks", l, [op |-> tag, ul |-> e.ul, cr |-> e.cr, expul |-> Len(nxt.past)])
-    /\ st' = Adopt(nxt, e)
+    \* the redo stack of the model is kept even if can_redo disagrees: "redoing the steps restores the state reached
+    \* after the sequence" is judged against the steps that WERE undone, not against what the engine still remembers
+    /\ st' = AdoptLen([nxt EXCEPT !.doc = D(e)], e.ul)
     /\ cut' = ~ok
     /\ taint' = IF taint = "" /\ ok /\ ~strict THEN tag ELSE taint
 
@@ -121,6 +124,9 @@ Group(e) ==
     /\ Expect(StacksAs(nxt, e), "begin-stacks", l, [ul |-> e.ul, cr |-> e.cr])
     /\ st' = Adopt(nxt, e) /\ UNCHANGED <<cut, taint>>
   ELSE IF st.open = <<>> THEN Viol("TOOL", "end-without-begin", l, e.ev) /\ UNCHANGED <<st, cut, taint>>
+  ELSE IF Has(e, "r") /\ e.r # "ok" THEN      \* closing the guard panicked: not a statement of C08, but the model never does that
+    /\ Drift("end-panicked", l, [kind |-> e.kind, site |-> IF Has(e, "site") THEN e.site ELSE ""])
+    /\ cut' = TRUE /\ UNCHANGED <<st, taint>>
   ELSE
     LET nxt == IF e.kind = "end" THEN EndExplicit(st) ELSE EndDrop(st) IN
     /\ Expect(e.doc = W(st.doc) /\ e.x = X(st.doc), "end-changed-document", l, <<>>)
